@@ -170,6 +170,7 @@ Branch(kw, i) == [k |-> "branch", kw |-> kw, i |-> i]
 Prop(n) == [k |-> "prop", name |-> n]
 Item == [k |-> "item"]
 Branches(kw, n, s) == [sk |-> "schema"] @@ (kw :> [j \in 1..n |-> s])
+BothOf(na, no, s) == [sk |-> "schema", anyOf |-> [j \in 1..na |-> s], oneOf |-> [j \in 1..no |-> s]]   \* `anyOf` and `oneOf` side by side
 
 (* (base schema, values) -> [schema, ex] for a placement at the top of a parameter / media type *)
 Place(place, n, s, vals) ==
@@ -187,6 +188,10 @@ Place(place, n, s, vals) ==
     [] place = "schema-examples" -> [schema |-> s, ex |-> <<InSchema(<<>>, "examples-list", vals)>>]
     [] place \in {"anyOf", "oneOf"} -> [schema |-> Branches(place, n, s),
                                          ex |-> [j \in 1..n |-> InSchema(<<Branch(place, j)>>, "example", <<vals[j]>>)]]
+    [] place = "anyOf+oneOf" ->          \* combinator co-occurrence: ONE schema has both keywords, each branch has its example
+         [schema |-> BothOf(1, n - 1, s),
+          ex |-> <<InSchema(<<Branch("anyOf", 1)>>, "example", <<vals[1]>>)>>
+                 \o [j \in 1..(n - 1) |-> InSchema(<<Branch("oneOf", j)>>, "example", <<vals[j + 1]>>)]]
     [] place = "allOf" -> [schema |-> [sk |-> "schema", allOf |-> IF n = 1 THEN <<s>> ELSE <<s, Empty>>],
                            ex |-> [j \in 1..n |-> InSchema(<<Branch("allOf", j)>>, "example", <<vals[j]>>)]]
 PlaceCounts(place) == CASE place = "none" -> {0} [] place \in {"example", "x-example", "schema-example"} -> {1}
@@ -194,7 +199,8 @@ PlaceCounts(place) == CASE place = "none" -> {0} [] place \in {"example", "x-exa
                         [] place \in {"examples-external", "examples-noschema"} -> {1, 2} [] place = "example-noschema" -> {1}
                         [] place = "allOf-list" -> {2, 3} [] place = "example+schema-example" -> {2}
                         [] place = "examples-ref" -> {1, 2} [] place = "anyOf" -> {2} [] place = "oneOf" -> {2, 3} [] place = "allOf" -> {1, 2}
-ParamPlaces3 == {"none", "example", "examples", "examples-ref", "schema-example", "schema-examples", "anyOf", "oneOf", "allOf", "allOf-list"}
+                        [] place = "anyOf+oneOf" -> {2, 3}
+ParamPlaces3 == {"none", "example", "examples", "examples-ref", "schema-example", "schema-examples", "anyOf", "oneOf", "allOf", "allOf-list", "anyOf+oneOf"}
 ParamPlaces2 == {"none", "example", "x-example", "x-examples"}
 PO(places) == {x \in places \X (0..3) : x[2] \in PlaceCounts(x[1])}
 
@@ -220,10 +226,11 @@ ObjSchema == [sk |-> "schema", type |-> <<"object">>, required |-> <<Tid>>,
 ObjEx(b, j) == [t |-> "obj", k |-> <<Tid>>, v |-> <<IntV(100 * b + j)>>]
 PropSchema(sa) == [sk |-> "schema", type |-> <<"object">>, required |-> <<Ta, Tc>>,
                    props |-> [k |-> <<Ta, Tb, Tc>>, v |-> <<sa, Leaf("string"), Leaf("string")>>]]
-BodyPlaces3a == ParamPlaces3 \cup {"property", "property-nested", "items-property", "property-branch", "branch-property"}
+BodyPlaces3a == ParamPlaces3 \cup {"property", "property-nested", "items-property", "property-branch", "branch-property", "property-anyOf+oneOf"}
 BodyPlaces2 == {"none", "x-example", "x-examples", "example", "schema-example", "property"}
 BodyCounts(place) == IF place \in {"property", "property-nested", "items-property", "allOf-properties", "property-allOf"} THEN {1, 2, 3}
-                     ELSE IF place \in {"property-branch", "branch-property"} THEN {2} ELSE PlaceCounts(place)
+                     ELSE IF place \in {"property-branch", "branch-property"} THEN {2}
+                     ELSE IF place = "property-anyOf+oneOf" THEN {2, 3} ELSE PlaceCounts(place)
 BO(places) == {x \in places \X (0..3) : x[2] \in BodyCounts(x[1])}
 BodyPlaces3 == BodyPlaces3a \cup {"allOf-properties", "property-allOf", "examples-external", "example-noschema", "examples-noschema"}
 Req(names) == IF names = <<>> THEN [x \in {} |-> 0] ELSE [required |-> names]
@@ -255,6 +262,10 @@ BodyS(b, mt, req, bo, pos, sv) ==        \* pos = 0: no special value; else exam
              [] place = "property-branch" ->
                    [schema |-> PropSchema(Branches("anyOf", 2, Leaf("integer"))),
                     ex |-> [j \in 1..2 |-> InSchema(<<Prop(Ta), Branch("anyOf", j)>>, "example", <<avals[j]>>)]]
+             [] place = "property-anyOf+oneOf" ->     \* the property's schema has n - 1 anyOf branches AND one oneOf branch, an example in each
+                   [schema |-> PropSchema(BothOf(n - 1, 1, Leaf("integer"))),
+                    ex |-> [j \in 1..(n - 1) |-> InSchema(<<Prop(Ta), Branch("anyOf", j)>>, "example", <<avals[j]>>)]
+                           \o <<InSchema(<<Prop(Ta), Branch("oneOf", 1)>>, "example", <<avals[n]>>)>>]
              [] place = "branch-property" ->
                    [schema |-> Branches("anyOf", 2, PropSchema(Leaf("integer"))),
                     ex |-> [j \in 1..2 |-> InSchema(<<Branch("anyOf", j), Prop(Ta)>>, "example", <<avals[j]>>)]]
